@@ -123,7 +123,7 @@ CHECKS = {
              "key (plus version strings, time shift and hash-tag replacement on one representative per type) RestoreRdbEntry runs against a model Redis (real "
              "redigo client over an in-memory connection). Oracle: logical equality of the target key, TTL bracketed by the clock before/after the call, "
              "policy semantics (none: error and target untouched; ignore: untouched; rewrite: source value), no abort (log.Panic or Go panic) for any "
-             "accepted configuration. Coverage is reported per route actually taken (restore, bigkey, quicklist, fallback). Expiries: none, +1 h, already past, +400 years (beyond an int64 of nanoseconds), and given in seconds.",
+             "accepted configuration. Coverage is reported per route actually taken (restore, bigkey, quicklist, fallback). Expiries: none, +1 h, already past, +400 years (beyond an int64 of nanoseconds), and given in seconds. Sweep F repeats every value through all three routes on a connection that keeps the arguments of Send until Flush (a model of the tool's cluster connection, whose Batch.Put retains the argument slices): a restore routine must not reuse an argument buffer before the flush.",
         note="trusts mredis' model of RESTORE/BUSYKEY/REPLACE/TTL semantics (A5), rdbgen's logical values and redigo; values with NaN scores and the stream x target-rejects combination are excluded (cannot succeed on any Redis)",
         rule="case = one point of the product; states = distinct cases; transitions = restore calls; non-trivial = every case (each one compares the final target state with the expected one)",
         parts=[dict(pkg="./redis-shake/common", harness=["common"], test="^TestVerif_C02$", shards=16, budget=dict(quick=75, thorough=1500), mem_kb=8*1024*1024)],
@@ -137,11 +137,13 @@ CHECKS = {
              "databases and a foreign value under the checkpoint name. The real LoadCheckpoint (real redigo client, dial hook) runs on every distinct state. "
              "Oracle: a set-valued reference (any database holding the maximal offset of OUR source is acceptable, because the scan order is a Go map order), "
              "its run id and database or unknown/no database, -1 when none, refusal when that checkpoint's version is too old; afterwards foreign fields and the "
-             "chosen database untouched and our stale fields removed elsewhere.",
+             "chosen database untouched and our stale fields removed elsewhere. Third part (TestVerif_C14R): whole DbSyncer.Sync() runs against three model source nodes and a model target. A fresh run stores its checkpoint; a restarted process has its first 0, 1 or 2 PSYNCs refused (-NOMASTERLINK), which starts Sync() again on the same object; standalone sources and cluster sources with three slot ranges. Every PSYNC must ask for the continuation of the stored checkpoint (run id, offset+1), no further checkpoint key may appear on the target, the stored offset ends at the end of the stream and the counter incremented before and after the restart is 2.",
         note="trusts mredis (HGETALL/HDEL/EXISTS/INFO keyspace) and redigo; the reference function is a direct transcription of the statement",
         rule="state = canonical target keyspace (per database: checkpoint fields, data flag); transition = one write applied to the model state; every distinct state is evaluated once on the real code; non-trivial = the state holds at least one checkpoint field or foreign value (outcome other than 'none')",
         parts=[dict(pkg="./redis-shake/checkpoint", harness=["checkpoint"], test="^TestVerif_C14$", shards=16, budget=dict(quick=60, thorough=900)),
-               dict(pkg="./redis-shake/dbSync", harness=["dbsync"], test="^TestVerif_C14S$", shards=16, gomaxprocs=2, budget=dict(quick=60, thorough=600))],
+               dict(pkg="./redis-shake/dbSync", harness=["dbsync"], test="^TestVerif_C14S$", shards=16, gomaxprocs=2, budget=dict(quick=60, thorough=600)),
+               # restarts: a fresh whole Sync() run stores its checkpoint, then a restarted process whose first 0-2 PSYNCs are refused (Sync() starts again on the same object), standalone and cluster sources
+               dict(pkg="./redis-shake/dbSync", harness=["dbsync"], test="^TestVerif_C14R$", shards=12, gomaxprocs=2, budget=dict(quick=90, thorough=300))],
     ),
     "C20": dict(
         level="model_checking",
@@ -151,12 +153,14 @@ CHECKS = {
              "INFO without role line, slave, slave with a misleading earlier line, master, master with the role line late) is the explorer's choice; the "
              "back-off sleeps run on testing/synctest's fake clock. Full product over all rounds for maxRetries 1 and 2, all-fail default with <=2/3 deviating "
              "answers for the production value 6. Oracle: success iff the final round contains a node answering master, that node is the chosen source, "
-             "source+replicas is exactly the known node list, failure only after maxRetries+1 rounds and exactly the expected back-off, receiver state unchanged.",
+             "source+replicas is exactly the known node list, failure only after maxRetries+1 rounds and exactly the expected back-off, receiver state unchanged. Third part (TestVerif_C20R): the same whole-Sync() harness with the master role moving between the attempts of one syncer object: every sequence of masters over 1, 2 and 3 attempts (39 scenarios). Every PSYNC must go to the node that is master at that moment, discovery must end (no abort), and the syncer's node must name the master as source and the two other nodes as replicas.",
         note="trusts testing/synctest's fake clock (A1); the fake connection implements redigo.Conn directly (no network layer involved in this property)",
         rule="case = one complete sequence of probe answers; states = distinct answer sequences; transitions = probes; non-trivial = every completed execution (each is judged against the expected outcome)",
         parts=[dict(pkg="./redis-shake/dbSync/slotsupervisor", harness=["slotsupervisor"], test="^TestVerif_C20$", shards=16, budget=dict(quick=60, thorough=900)),
                # the same discovery through the real connection factory (dial, AUTH, INFO over a connection)
-               dict(pkg="./redis-shake/dbSync/slotsupervisor", harness=["slotsupervisor"], test="^TestVerif_C20F$", shards=1, budget=dict(quick=60, thorough=120))],
+               dict(pkg="./redis-shake/dbSync/slotsupervisor", harness=["slotsupervisor"], test="^TestVerif_C20F$", shards=1, budget=dict(quick=60, thorough=120)),
+               # the master role moves between the attempts of one syncer object (every sequence of masters over 1-3 attempts of whole Sync() runs against three model nodes)
+               dict(pkg="./redis-shake/dbSync", harness=["dbsync"], test="^TestVerif_C20R$", shards=16, gomaxprocs=2, budget=dict(quick=90, thorough=300))],
     ),
     "C09": dict(
         level="model_checking",
@@ -184,7 +188,7 @@ CHECKS = {
              "[wpos-cap, wpos] at some moment of the call; never a success for an offset outside the range during the whole call; blocked readers are woken "
              "by every write and by close (lost wake-up invariant on the shim's wait queue, deadlock detection); DataRange/IsValid/NewReader agree with the "
              "log. Sequentially all words up to length 5 (6) over writes of sizes up to 2cap+1, ReadAt/Seek at offsets around both ends of the data range, "
-             "reader operations and Close are checked after every step. Free-running -race pass of the same bodies. Two scenarios park three readers at the write position with fewer writes than readers and nobody closing: every one of them must be released.",
+             "reader operations and Close are checked after every step. Free-running -race pass of the same bodies. Two scenarios park three readers at the write position with fewer writes than readers and nobody closing: every one of them must be released. Rings are also started from a non-initial absolute position (the state after that many bytes were written long ago; offsets of the scenario are relative to it): the sequential words and seven scheduled scenarios run on the non-power-of-two ring just below 2^32, so that positions cross the 32-bit boundary without writing 4 GiB first.",
         note="the scheduler is sequentially consistent and switches only at Lock/Wait/thread end; the custom close error is not required to be the one reported (the statement only asks for an error); file backend reduced, thorough only",
         rule="execution = one schedule of one scenario or one sequential word; states = distinct observable histories per scenario plus distinct words; transitions = scheduling steps / operations; non-trivial = all",
         parts=[dict(pkg="./pkg/libs/io/backlog", harness=["backlog"], test="^TestVerif_C18$", race_test="^TestVerif_C18Race$", race=True, race_shards=4, shards=16,
@@ -284,7 +288,7 @@ CHECKS = {
              "scan.key_number 1-3, big_key_threshold below/above the payloads, key_exists none/rewrite with and without a pre-existing target key, target.db, key and db "
              "filters, and key-file driven scans with 0..2*page+1 lines. Oracle after exec returns: every surviving, passing key has the source's logical value in "
              "the right database; its remaining TTL at the moment of RESTORE equals the PTTL the source answered (no expiry stays no expiry); vanished and filtered "
-             "keys are skipped without stopping; the run returns within bounded fake time; a busy key under key_exists=none may stop the run but must not be overwritten silently. A key whose DUMP answered nil must not appear on the target; an expiring key that was gone when PTTL was asked must not appear as a persistent key. Key files are also tried with one empty line at every position.",
+             "keys are skipped without stopping; the run returns within bounded fake time; a busy key under key_exists=none may stop the run but must not be overwritten silently. A key whose DUMP answered nil must not appear on the target; an expiring key that was gone when PTTL was asked must not appear as a persistent key. Key files are also tried with one empty line at every position. Rate limit: qps 1 and 2 with a source that answers one of the later SCAN pages only after 3 s (the limiter's bucket stays full over several refill ticks, then more keys than the bucket holds arrive); the run must still copy everything and end.",
         note="the order in which databases are visited is a Go map order (not controlled; the oracle is on the final state only); cluster and special-cloud scanners are out of scope",
         rule="case = one point of the product; states = distinct cases; transitions = 4 per case (scan, dump/pttl, restore, confirm phases); non-trivial = all cases",
         parts=[dict(pkg="./redis-shake", harness=["run"], test="^TestVerif_C16$", shards=16, gomaxprocs=2, budget=dict(quick=75, thorough=1200)),
